@@ -385,6 +385,26 @@ impl<'de> Deserialize<'de> for MemberKind {
     }
 }
 
+/// Verification hooks: accessors for the `encodeType` string and the
+/// parse/print image of a member type.
+#[cfg(feature = "verif-hooks")]
+pub mod verif_hooks {
+    use super::{MemberKind, Types};
+    use anyhow::Result;
+
+    /// Returns `encodeType(kind)` for the `types` object of a typed data document.
+    pub fn encode_type(types_json: &str, kind: &str) -> Result<String> {
+        let types = serde_json::from_str::<Types>(types_json)?;
+        types.encode_type(kind)
+    }
+
+    /// Parses a member type and returns its `Debug` and `Display` images.
+    pub fn member_kind(value: &str) -> (String, String) {
+        let kind = MemberKind::from_str(value);
+        (format!("{kind:?}"), kind.to_string())
+    }
+}
+
 #[cfg(test)]
 mod tests {
     use super::*;
